@@ -30,6 +30,8 @@ PROPS["C10"] = {
          "bounds": {"failure_threshold": "[-1,4]", "checks": 6, "stop_at": "[0,6]"}},
         {"pkg": "app", "name": "VerifC10_Coupling", "quick": {"d": 0}, "thorough": {"d": 1}, "native": False, "reach": ["end", "fatal"],
          "bounds": {"checks": "every outcome sequence of 4", "failure_threshold": 2, "policy": "no / on_failure / always (max_restarts 1)", "virtual time": "yes"}},
+        {"pkg": "app", "name": "VerifC10_Daemon", "quick": {"d": 0}, "thorough": {"d": 1}, "native": False,
+         "bounds": {"policy": "no / always (max_restarts 1)", "fatal liveness result": "while the launcher still runs, or after the daemon was launched", "failure_threshold": 2}},
         {"pkg": "health", "name": "VerifC10_Lifecycle", "quick": {"d": 1}, "thorough": {"d": 2},
          "bounds": {"initial delay": "{0,2}s", "stop": "0 / 1 / 3 s after Start (before or after the delay elapsed)", "virtual time": "yes"}},
     ],
